@@ -198,6 +198,11 @@ def worker(args):
                 t = str.maketrans("".join(alpha), "".join(other))
                 group.append((sorted(p.translate(t) for p in pats), other))
             group.append((rand_patterns(rnd, alpha), alpha))  # unrelated
+            if len(alpha) == 2 and rnd.random() < 0.6:
+                # several two-pattern sets of length-3 patterns: different classes that happen to be isomorphic, so that a
+                # class of one specification has several partners in the other
+                for _ in range(3):
+                    group.append((sorted({"".join(rnd.choice(alpha) for _ in range(3)) for _ in range(2)}), alpha))
             if rnd.random() < 0.5:  # a near miss: one letter of one pattern changed
                 p2 = list(pats)
                 i = rnd.randrange(len(p2))
